@@ -28,6 +28,23 @@ type opdT struct {
 	F    []int            `json:"f"`    // special records: IEEE class per element (0 finite, 1 +Inf, 2 -Inf, 3 NaN, 4 -0)
 }
 
+// a view of a matrix: Slice(r0, r1, c0, c1), then T() if t
+type viewT struct {
+	T  bool `json:"t"`
+	R0 int  `json:"r0"`
+	R1 int  `json:"r1"`
+	C0 int  `json:"c0"`
+	C1 int  `json:"c1"`
+}
+
+func applyView(m Matrix, v *viewT) Matrix {
+	r := m.Slice(v.R0, v.R1, v.C0, v.C1)
+	if v.T {
+		r = r.T()
+	}
+	return r
+}
+
 // symbolic integer relative to a bound of the element type (records sp = "ib")
 type symT struct {
 	B string `json:"b"` // "min", "zero", "max"
@@ -63,6 +80,13 @@ type rec struct {
 	Y    int    `json:"y"`
 	Sexp *sexpT `json:"sexp"`
 	// generic constructors / converters (op = "Ctor")
+	// follow-up case sets: kind = "ratio" (non-integer quotients), "big" (values beyond single precision), "view"
+	Kind   string `json:"kind"`
+	Ascale int    `json:"ascale"` // operand a is multiplied by 2^ascale, the divisor (b / scalar) by 2^bscale
+	Bscale int    `json:"bscale"`
+	V1     *viewT `json:"v1"` // operands are views of the base matrix rc.A
+	V2     *viewT `json:"v2"`
+	Alias  string `json:"alias"` // scalar cases: the receiver is an operand ("ra", "rb", "rab")
 	// Equals with an epsilon dimension: values are integers in units of 2^scale, epsilon = epsu units
 	Scale int    `json:"scale"`
 	Epsu  int    `json:"epsu"`
@@ -256,14 +280,23 @@ func projScalar(s ConstScalar) obsElem {
 	return o
 }
 
+// accessorsAgree: every typed accessor of the container delivers what the
+// element itself (ConstAt) delivers through the getter of the same type.
+func accessorsAgree(s ConstScalar, i8 int8, i16 int16, i32 int32, i64 int64, in int, f32 float32, f64 float64) bool {
+	sf := func(x, y float64) bool { return x == y || (x != x && y != y) }
+	return i8 == s.GetInt8() && i16 == s.GetInt16() && i32 == s.GetInt32() && i64 == s.GetInt64() && in == s.GetInt() &&
+		sf(float64(f32), float64(s.GetFloat32())) && sf(f64, s.GetFloat64())
+}
+
 func project(c cont) []obsElem {
+	poison := obsElem{V: math.NaN(), D: -12345} // accessors disagree: cannot equal any expectation
 	if v := c.constVec(); v != nil {
 		r := make([]obsElem, v.Dim())
 		for i := range r {
-			r[i] = projScalar(v.ConstAt(i))
-			if f := v.Float64At(i); f != r[i].V && !(math.IsNaN(f) && math.IsNaN(r[i].V)) {
-				r[i].V = math.NaN() // ConstAt and Float64At disagree: cannot equal any finite expectation
-				r[i].D = -12345
+			s := v.ConstAt(i)
+			r[i] = projScalar(s)
+			if !accessorsAgree(s, v.Int8At(i), v.Int16At(i), v.Int32At(i), v.Int64At(i), v.IntAt(i), v.Float32At(i), v.Float64At(i)) {
+				r[i] = poison
 			}
 		}
 		return r
@@ -272,10 +305,11 @@ func project(c cont) []obsElem {
 	r := make([]obsElem, rows*cols)
 	for i := 0; i < rows; i++ {
 		for j := 0; j < cols; j++ {
-			r[i*cols+j] = projScalar(c.mat.ConstAt(i, j))
-			if f := c.mat.Float64At(i, j); f != r[i*cols+j].V && !(math.IsNaN(f) && math.IsNaN(r[i*cols+j].V)) {
-				r[i*cols+j].V = math.NaN()
-				r[i*cols+j].D = -12345
+			s := c.mat.ConstAt(i, j)
+			r[i*cols+j] = projScalar(s)
+			if !accessorsAgree(s, c.mat.Int8At(i, j), c.mat.Int16At(i, j), c.mat.Int32At(i, j), c.mat.Int64At(i, j), c.mat.IntAt(i, j),
+				c.mat.Float32At(i, j), c.mat.Float64At(i, j)) {
+				r[i*cols+j] = poison
 			}
 		}
 	}
@@ -284,8 +318,25 @@ func project(c cont) []obsElem {
 
 // elemOK compares one observed element with the triple the specification demands.
 // what: "" ok, "value", "deriv"
-func elemOK(t *elemType, e [3]int, o obsElem) string {
+func elemOK(t *elemType, e [3]int, o obsElem) string { return elemOKs(t, e, o, 0) }
+
+// elemOKs: shift = binary exponent applied to a demanded quotient (class 6)
+func elemOKs(t *elemType, e [3]int, o obsElem, shift int) string {
 	switch e[2] {
+	case 6: // the quotient e[0]/e[1], rounded ONCE in the element type (integer types: truncated)
+		var want float64
+		switch {
+		case t.class == "int":
+			want = float64(e[0] / e[1])
+		case t.bits32:
+			want = float64(float32(e[0]) / float32(e[1]))
+		default:
+			want = float64(e[0]) / float64(e[1])
+		}
+		if o.V != math.Ldexp(want, shift) {
+			return "value"
+		}
+		return ""
 	case 5:
 		return "" // unconstrained by IEEE arithmetic alone
 	case 4:
@@ -320,7 +371,7 @@ func elemOK(t *elemType, e [3]int, o obsElem) string {
 
 func hasSpecial(c [][3]int) bool {
 	for _, e := range c {
-		if e[2] != 0 {
+		if e[2] >= 1 && e[2] <= 3 {
 			return true
 		}
 	}
@@ -329,14 +380,18 @@ func hasSpecial(c [][3]int) bool {
 
 // compareContent returns "" or the failure class and the first failing index.
 func compareContent(t *elemType, exp [][3]int, obs []obsElem, intDivByZero bool) (string, int) {
+	return compareContentS(t, exp, obs, intDivByZero, 0)
+}
+
+func compareContentS(t *elemType, exp [][3]int, obs []obsElem, intDivByZero bool, shift int) (string, int) {
 	if len(exp) != len(obs) {
 		return "shape", -1
 	}
 	for i := range exp {
-		if intDivByZero && exp[i][2] != 0 {
+		if intDivByZero && exp[i][2] >= 1 && exp[i][2] <= 3 {
 			continue // integer element type, division by zero that did not panic: unconstrained
 		}
-		if w := elemOK(t, exp[i], obs[i]); w != "" {
+		if w := elemOKs(t, exp[i], obs[i], shift); w != "" {
 			return w, i
 		}
 	}
@@ -350,4 +405,45 @@ func sortedKeys(m map[string][]int) []string {
 	}
 	sort.Strings(r)
 	return r
+}
+
+// fits: the element type holds every finite value of the record exactly
+// (operands, prior content, demanded content) and the record's binary scales.
+func fits(t *elemType, rc *rec) bool {
+	lim := math.Inf(1)
+	switch {
+	case t.name == "Int8":
+		lim = 127
+	case t.name == "Int16":
+		lim = 32767
+	case t.bits32:
+		lim = 1 << 24
+	}
+	scaled := rc.Scale != 0 || rc.Ascale != 0 || rc.Bscale != 0
+	if scaled && t.class == "int" {
+		return false // fractions exist in the floating point and magic element types only
+	}
+	for _, sc := range []int{rc.Scale, rc.Ascale, rc.Bscale} {
+		if t.bits32 && (sc > 100 || sc < -100) {
+			return false
+		}
+	}
+	if math.IsInf(lim, 1) {
+		return true
+	}
+	for _, cc := range [][][2]int{rc.R.C, rc.A.C, rc.B.C} {
+		for _, e := range cc {
+			if math.Abs(float64(e[0])) > lim {
+				return false
+			}
+		}
+	}
+	if rc.Exp != nil {
+		for _, e := range rc.Exp.C {
+			if e[2] == 0 && math.Abs(float64(e[0])) > lim {
+				return false
+			}
+		}
+	}
+	return true
 }
